@@ -178,7 +178,8 @@ class BaseLoss(object):
         # so we first check the type
         self._observeT = t.copy()
         # and insert the initial value
-        self._t = np.insert(t, 0, t0)
+        # (as floating point: inserting into an integer grid truncates t0)
+        self._t = np.insert(np.asarray(t, dtype=float), 0, t0)
         # and length
         self._numTime = len(self._t)
 
